@@ -77,6 +77,9 @@ def build(rng, breach, px='', fid='f0'):
 
 def gen_case(rng, tier, avoid):
     breach = gen.pick(rng, BREACHES)
+    want_cross = rng.random() < 0.3
+    if want_cross:
+        breach = None          # the specification itself is clean; the breaches come from assignments made in the other mode
     spec = build(rng, breach)
     body = list(spec.ops) + [gen.write_op(spec, path='inside.dlis')]
     exit_kind = rng.choice(['normal', 'normal', 'io_fault', 'interrupt', 'rejected_call'])
@@ -96,6 +99,27 @@ def gen_case(rng, tier, avoid):
     for op in body:
         if op.get('op') == 'add' and rng.random() < 0.3 and breach:
             op.setdefault('propagate', rng.random() < 0.5)
+    cross = None
+    pre = []
+    if want_cross and exit_kind == 'normal':
+        # objects created in one mode, enumerated attributes assigned in the other
+        cross = rng.choice(['built_outside_assigned_inside', 'built_inside_assigned_outside'])
+        tgt = [op for op in spec.ops if op.get('op') == 'add' and op['kind'] in ('channel', 'frame', 'equipment')]
+        sets = []
+        for op in tgt:
+            if op['kind'] == 'channel':
+                sets.append({'op': 'set', 'h': op['h'], 'attr': 'units', 'part': 'value', 'v': 'furlong'})
+            elif op['kind'] == 'frame' and 'index_type' in op['kwargs']:
+                sets.append({'op': 'set', 'h': op['h'], 'attr': 'index_type', 'part': 'value', 'v': 'SOMETHING-ELSE'})
+                sets.append({'op': 'set', 'h': op['h'], 'attr': 'spacing', 'part': 'units', 'v': 'furlong'})
+            elif op['kind'] == 'equipment':
+                sets.append({'op': 'set', 'h': op['h'], 'attr': '_type', 'part': 'value', 'v': 'Gizmo'})
+        sets = [x for x in sets if rng.random() < 0.6] or sets[:1]
+        if cross == 'built_outside_assigned_inside':
+            pre = [op for op in body if op.get('op') != 'write']
+            body = sets + [op for op in body if op.get('op') == 'write']
+        else:
+            cross_after = sets
     depth = rng.choice([1, 1, 2, 3])
     block = {'op': 'hc_block', 'form': rng.choice(['with', 'decorator']), 'body': body}
     for d in range(depth - 1):
@@ -105,7 +129,10 @@ def gen_case(rng, tier, avoid):
             s2 = build(rng, None, px='n%d_' % d, fid='g%d' % d)
             post = list(s2.ops) + [gen.write_op(s2, path='nested%d.dlis' % d)]
         block = {'op': 'hc_block', 'form': rng.choice(['with', 'decorator']), 'body': pre + [block] + post}
-    hist = [block]
+    hist = pre + [block]
+    if cross == 'built_inside_assigned_outside':
+        # after the context: the same non-standard values must be accepted (with a warning), and the file be writable
+        hist += [dict(x, expect_ok_outside=True) for x in cross_after] + [gen.write_op(spec, path='after.dlis')]
     # the same specification outside the mode
     out_spec = copy.deepcopy(spec.ops)
     for op in out_spec:
@@ -123,7 +150,7 @@ def gen_case(rng, tier, avoid):
         hist = out_spec[:3] + hist        # something before the block as well
         hist = hist[:3] + hist[3:]
     return {'scenario': {'env': {'tz': 'UTC'}, 'history': hist},
-            'params': {'breach': breach, 'exit': exit_kind, 'depth': depth, 'form': block['form']}}
+            'params': {'breach': breach, 'exit': exit_kind, 'depth': depth, 'form': block['form'], 'cross': cross}}
 
 
 def _rename_refs(v):
@@ -280,6 +307,11 @@ def check_case(case, ex):
             elif op['fid'] == 'out_f0' and st.get('warn'):
                 C.bump(stats['probes'], 'warned_outside')
     for op, st in zip(hist, steps):
+        if st is not None and op.get('expect_ok_outside') and st.get('out') == 'exc':
+            out.append(C.V('C17.rejected_outside_mode', dict(fp, what='set_' + op['attr'], cross=Pm.get('cross')), exc=st.get('exc'),
+                           msg=st.get('msg')))
+            break
+    for op, st in zip(hist, steps):
         if st is not None and op.get('op') == 'add' and str(op.get('h', '')).startswith('out_') and st.get('out') == 'exc':
             out.append(C.V('C17.rejected_outside_mode', dict(fp, what='add_' + op['kind']), exc=st.get('exc'), msg=st.get('msg')))
             break
@@ -288,7 +320,9 @@ def check_case(case, ex):
             exc_left = True
         for k in st.get('faults_fired') or []:
             C.bump(stats['faults'], k + '_inside_hc')
-    stats['nontrivial'] = bool(exc_left or Pm['depth'] > 1 or Pm['breach'])
+    stats['nontrivial'] = bool(exc_left or Pm['depth'] > 1 or Pm['breach'] or Pm.get('cross'))
+    if Pm.get('cross'):
+        C.bump(stats['probes'], 'cross_' + Pm['cross'])
     C.bump(stats['probes'], 'breach_' + str(Pm['breach']))
     stats['state_sigs'].append('%s|%s|d%d|%s|%s' % (Pm['breach'], Pm['exit'], Pm['depth'], Pm['form'], exc_left))
     return {'violations': out, 'stats': stats}
